@@ -148,8 +148,14 @@ def match(a_items, b_items):
                 if e is not False: out.append((e, i, j))
     return out
 
+def need_fiber(x, what):
+    if not hasattr(x, "items") or not hasattr(x, "below"):
+        raise ModelError("%s of a non-fiber (%s)" % (what, type(x).__name__))
+
 class Intersect(View):
-    def __init__(self, a, b): self.a, self.b = a, b; self.below = a.below
+    def __init__(self, a, b):
+        need_fiber(a, "intersection"); need_fiber(b, "intersection")
+        self.a, self.b = a, b; self.below = a.below
     def items(self):
         ai, bi = self.a.items(), self.b.items()
         res = []
@@ -159,7 +165,9 @@ class Intersect(View):
         return res
 
 class Union(View):
-    def __init__(self, a, b): self.a, self.b = a, b; self.below = a.below
+    def __init__(self, a, b):
+        need_fiber(a, "union"); need_fiber(b, "union")
+        self.a, self.b = a, b; self.below = a.below
     def items(self):
         ai, bi = self.a.items(), self.b.items()
         if any(is_symt(c) for _, c, _ in ai + bi): raise NotModelled("union over symbolic coordinates")
@@ -184,6 +192,7 @@ class Union(View):
 class Populate(View):
     def __init__(self, z, b):
         if not isinstance(z, SFiber): raise ModelError("populate target is not a fiber")
+        need_fiber(b, "populate")
         self.z, self.b = z, b; self.below = z.below
     def items(self):
         res = []
